@@ -7,6 +7,7 @@ import Proofs.ChainStream
 import Proofs.ChainPoolSys
 import Proofs.ChainSys
 import Proofs.PCQueueProgress
+import Proofs.PCQueueFail
 /-!
 # C17 — Queues and chains deliver each item exactly once, in order, and terminate
 
@@ -605,5 +606,54 @@ theorem steplevel_liveness_partial {σ : Type} {P : Prog σ} {c : CState σ} (h 
   exact op_bounded hinv hs
 
 end composed
+
+/-! ## Part 8: the exception path — a failing element copy is transparent (util/pcqueue.hh:96-104, 113-121)
+
+"Strong exception guarantee if operator= throws": inside the critical section the copy may throw; the catch block
+gives the semaphore token back, unwinding releases the mutex, and because the ring wrap stands AFTER the `try` the
+cursor has not moved. -/
+section copyfail
+
+/-- **A failed copy is a stutter step.**  `fail s t g` (the copy of thread `t`, at its critical-section body,
+throws; `g` = whatever a half-finished `Produce` left in the slot): the invariant of Part 1 is preserved, the ghost
+histories, both cursors, the capacity and the abstract FIFO are unchanged; hence in every state reachable with
+arbitrarily many failed copies (and EINTR interrupts) at arbitrary moments (`ReachF`) the invariant holds and with it
+every safety theorem of Part 1 — semaphore accounting, capacity, FIFO exactly-once for the values SUCCESSFULLY
+produced, per-pair order, and "some thread can step" (termination then needs that copies do not fail forever). -/
+theorem copy_failure_transparent (hcap : 0 < cap) :
+    (∀ {s s' : State} {t g : Nat}, ReachF (mkInit cap ps qs) s → fail s t g = some s' →
+        s'.writes = s.writes ∧ s'.reads = s.reads ∧ s'.produceAt = s.produceAt ∧ s'.consumeAt = s.consumeAt
+        ∧ absBuf s' = absBuf s ∧ s'.cap = s.cap)
+    ∧ (∀ {s : State}, ReachF (mkInit cap ps qs) s →
+        Inv (ps.map List.length).sum qs.sum s
+        ∧ s.reads.map (·.2) = (s.writes.map (·.2)).take s.reads.length
+        ∧ s.writes.length - s.reads.length ≤ s.cap
+        ∧ s.empty + s.used + inFlightProducers s + inFlightConsumers s = s.cap) := by
+  have hinv : ∀ {s : State}, ReachF (mkInit cap ps qs) s → Inv (ps.map List.length).sum qs.sum s :=
+    fun hr => inv_reachF (inv_init cap ps qs hcap) hr
+  refine ⟨fun hr hf => ?_, fun hr => ?_⟩
+  · obtain ⟨_, h1, h2, h3, h4, h5, h6⟩ := fail_stutter (hinv hr) hf
+    exact ⟨h1, h2, h3, h4, h5, h6⟩
+  · have h := hinv hr
+    have hacct := h.acct
+    have hocc := h.occ
+    refine ⟨h, h.fifo, by omega, ?_⟩
+    unfold inFlightProducers inFlightConsumers
+    omega
+
+/-- non-vacuity and dependence on the order "copy, then advance": one producer (value 7), one consumer, capacity 2;
+the first copy of the producer throws, it retries, the consumer then reads.  With the real exception path the
+consumer receives 7; with the cursor advanced before the copy (the change seeded as C17-5) the value is written
+to slot 1 and the consumer receives the content of slot 0, which nobody produced. -/
+example :
+    ((((((((((((some (mkInit 2 [[7]] [1])).bind (step · 0)).bind (step · 0)).bind (fail · 0 99)).bind (step · 0)).bind
+        (step · 0)).bind (step · 0)).bind (step · 0)).bind (step · 0)).bind (step · 1)).bind (step · 1)).bind
+        (step · 1)).map (fun s => (s.writes, s.reads)) = some ([(0, 7)], [(1, 7)])
+    ∧ ((((((((((((some (mkInit 2 [[7]] [1])).bind (step · 0)).bind (step · 0)).bind (failCursorFirst · 0 99)).bind
+        (step · 0)).bind (step · 0)).bind (step · 0)).bind (step · 0)).bind (step · 0)).bind (step · 1)).bind
+        (step · 1)).bind (step · 1)).map (fun s => (s.writes, s.reads)) = some ([(0, 7)], [(1, 99)]) := by
+  decide
+
+end copyfail
 
 end KV.C17
